@@ -12,7 +12,7 @@ FRACS = [1e-9, 1e-6, 1e-3, 0.01, 0.1, 0.5, 0.9, 0.999, 0.9995, 0.99999, 1.0, 1.0
 def tasks(ctx, quick):
     rng = random.Random(ctx.seed + 15)
     items = []
-    n = 40 if quick else 400
+    n = 40 if quick else 240
     for i in range(n):
         c = conditions(rng)
         c["fluence"] = rng.choice([1e5, 1e8, 1e11, 1e13])
